@@ -65,7 +65,7 @@ let show_parsed (p : ParserModel.coq_Parsed) : string =
 
 let show_res show r = match r with
   | Res.Ok a -> show a
-  | Res.Err e -> Printf.sprintf "E%d" (int_of_nat e)
+  | Res.Err _ -> "E" (* one token for "rejected": no property constrains which error is returned *)
   | Res.Panic -> "PANIC"
 
 let parse_line (data : int list) : string =
@@ -115,7 +115,7 @@ let file_line (out : BinNums.coq_Z list) : string =
 let written_line (r : BinNums.coq_Z list Res.coq_Res) (gofile : string option) : string =
   let i = match r with
     | Res.Ok out -> file_line out
-    | Res.Err e -> Printf.sprintf "E%d" (int_of_nat e)
+    | Res.Err _ -> "E" (* one token for "rejected": no property constrains which error is returned *)
     | Res.Panic -> "PANIC" in
   match gofile with
   | None -> i
